@@ -346,6 +346,7 @@ func (g *gen) oneCase() {
 		edge []int64
 	}
 	var keys []uint64
+	minAppendAge := int64(1) << 62
 	put := func(fresh bool) {
 		g.key++
 		key := g.key
@@ -392,6 +393,9 @@ func (g *gen) oneCase() {
 		exec([]string{"put", hx.U(key), hx.HexS(nt), hasLM, hx.I(lmAge)})
 		if !fresh {
 			exec([]string{"age", hx.U(key), hx.I(appendAge)})
+			if appendAge < minAppendAge {
+				minAppendAge = appendAge
+			}
 		}
 		keys = append(keys, key)
 	}
@@ -405,6 +409,10 @@ func (g *gen) oneCase() {
 	}
 	if r.Chance(9, 10) {
 		volAge := g.pickAge(volEdges, 0)
+		// half of the time keep the .dat mtime coherent with the youngest record (as in real operation)
+		if nk > 0 && r.Bool() && minAppendAge >= 0 && farFrom(minAppendAge, volEdges...) {
+			volAge = minAppendAge
+		}
 		exec([]string{"reopen", hx.I(volAge)})
 	}
 	reads()
